@@ -226,6 +226,14 @@ class TimeItScope(_TlsContract):
     return len(bad) == 0
 
   @direct
+  def requires(self, interp, env):
+    """Type invariant of the store: the timing context, when set, is a TimeIt
+    (only TimeIt.__enter__/__exit__ write this key), never None."""
+    st = self.store(interp)
+    k = z3.StringVal(_TIMING_KEY)
+    return z3.Implies(z3.Select(st.has0, k), z3.Select(st.val0, k) != st.vid(interp, None))
+
+  @direct
   def inside_this_is_the_current_context(self, interp, env):
     st = self.store(interp)
     k = z3.StringVal(_TIMING_KEY)
